@@ -217,7 +217,10 @@ class PathEval(object):
     'callee did not fail', so that `if (g(...) < 0) return -1;` is followed with the right errno."""
     MAXSTATES = 20000
 
-    def __init__(self, program, func, env, is_effect=None, pure=PURE, depth=0, fail_value=None, memo=None, maxstates=None, through_effects=False, dirty_paths=False):
+    def __init__(self, program, func, env, is_effect=None, pure=PURE, depth=0, fail_value=None, memo=None, maxstates=None, through_effects=False, dirty_paths=False,
+                 call_values=None, markers=None):
+        self.call_values = call_values or {}   # callee name -> forced return value (the call is then treated as pure)
+        self.markers = set(markers or ())      # callee names whose execution is remembered per path (terminals carry the set)
         self.through = through_effects or dirty_paths   # note effects but keep exploring
         self.dirty_paths = dirty_paths     # remember per path whether an effect happened: terminals carry (.., dirty, first effect loc)
         self.P = program
@@ -279,6 +282,8 @@ class PathEval(object):
             k = "@%d" % c["id"]
             if k in env:
                 return env[k]
+            if c.get("fn") in self.call_values:
+                return self.call_values[c["fn"]]
             o = self.callee_outcome(c, a)
             if o is None or o["effect"]:
                 return None
@@ -404,7 +409,10 @@ class PathEval(object):
             ev = self.evaluator(env)
             e = n["c"][0] if n.get("c") else None
             v = ev.ev(e) if e is not None else None
-            out.terminals.append(("return", v, err, f.loc(n), self.is_fail(v)))
+            t = ("return", v, err, f.loc(n), self.is_fail(v))
+            if self.markers:
+                t = t + (frozenset(k[1:] for k in env if k.startswith("#")),)
+            out.terminals.append(t)
             return "stop"
         if k == "DeclStmt":
             for v in n["c"]:
@@ -447,6 +455,10 @@ class PathEval(object):
             return None
         if k == "Call":
             fn = n.get("fn")
+            if fn in self.markers:
+                env["#" + fn] = 1
+            if fn in self.call_values:
+                return None
             if fn == "realloc" and (self.custom_effect is None or self.custom_effect(f, n, env)):
                 out.terminals.append(("effect", None, err, f.loc(n), False))
                 if not self.through:
